@@ -168,6 +168,13 @@ func c03Scenario(c *Ctx, idx int, r *Rng) {
 			rm.srv.putFail[sha(b)] = Pick(r, []int{422, 500, 403})
 			rm.srv.mu.Unlock()
 			log("server of %s refuses %s", rm.name, sha(b)[:8])
+		} else if r.Chance(4) { // the storage server acknowledges the upload and loses it; its verify call-back says so
+			rm := Pick(r, remotes)
+			rm.srv.mu.Lock()
+			rm.srv.putLose[sha(b)] = true
+			rm.srv.mu.Unlock()
+			log("server of %s loses %s after acknowledging it", rm.name, sha(b)[:8])
+			c.R.Count("server.loses-acknowledged-upload")
 		}
 		return b
 	}
